@@ -150,7 +150,7 @@ theorem ellipse_minor_roundtrip_mirror_partial (ra dec a b pa s : ℝ)
     rw [hth, minor_point_x, hx, hsy, ← hp1]; ring
   have hmy : offY e.y e.sy (e.theta - R.ofNat 90) = o2.2 := by
     rw [hth, minor_point_y, hy, hsy, ← hp2]; ring
-  simp only [pix2skyEllipse]
+  simp only [pix2skyEllipse, p2sEllOff1X_eq, p2sEllOff1Y_eq, p2sEllOff2X_eq, p2sEllOff2Y_eq]
   rw [hmx, hmy, hx, hy, hk2, hk]
   rw [hsx, hth', hox, hoy, hk1]
   simp only []
@@ -214,7 +214,7 @@ theorem ellipse_minor_roundtrip_partial (ra dec a b pa s : ℝ)
     rw [hth, minor_point_x, hx, hsy, hcos]; linarith
   have hmy : offY e.y e.sy (e.theta - R.ofNat 90) = 2 * c.2 - o2.2 := by
     rw [hth, minor_point_y, hy, hsy, hsin]; linarith
-  simp only [pix2skyEllipse]
+  simp only [pix2skyEllipse, p2sEllOff1X_eq, p2sEllOff1Y_eq, p2sEllOff2X_eq, p2sEllOff2Y_eq]
   rw [hmx, hmy, hx, hy, hk2, hk]
   rw [hsx, hth', hox, hoy, hk1]
   simp only []
